@@ -42,6 +42,13 @@ LEVEL_TEXT = ("Theorems (Coq, unbounded, all listed in evidence.coverage.theorem
               "(the data themselves until the first Median, the sorted data afterwards in the model), and a call answers the same after any two histories (induction over the history with a permutation invariant); "
               "Workload_Distribution is a partition: every task index lies in the half-open block of exactly one worker; list templates against each other: Sub_List undoes Combine_Lists, Sub_List(0..k) combined with Sub_List(k+1..n-1) is the list "
               "(the inclusive upper index), List_Contains = Find_Indices non-empty, number of indices = number of occurrences, Flatten of two rows = Combine, Transpose twice = identity on rectangular tables with a row and a column. "
+              "For the floating-point instance itself (theorems about every NumOps T, no law of order or arithmetic used, so valid for doubles with NaN, infinities and rounding): Linear_Space/Log_Space return exactly the requested number of points (1 for degenerate requests) (C19_grid_count_any_number_type); "
+              "the reordering Median leaves is a permutation of the data, also after a second call, and the median of an odd number of data is one of the data (C19_median_any_number_type); object histories of any length keep the vector a permutation of the data and answer every call (C19_stat_history_any_number_type). "
+              "From the laws of a strict total order alone (doubles without NaN): the reordered vector is sorted in all pairs and Locate_Closest_Location accepts the vector a Median call leaves behind (C19_sort_list_sorted_ord, C19_closest_after_median_ord). "
+              "From monotonicity of integer conversion, multiplication by a finite signed factor and addition to a finite number (MonoLaws; satisfied by the reals, and by IEEE round-to-nearest doubles as a fact about IEEE arithmetic that is NOT proved here): a non-degenerate Linear_Space grid with finite min and finite computed step never goes backwards in the rounded arithmetic (C19_linear_space_monotone_rounded; strict monotonicity is a theorem only over R - in doubles neighbouring points coincide when the step is below the spacing of the doubles). "
+              "The helpers against each other, over R, any size: Arithmetic_Mean and Median of a Linear_Space grid are (min+max)/2 in either orientation ; Arithmetic_Mean of Combine_Lists is the size-weighted mean of the means; "
+              "Variance in Koenig-Huygens form and Variance = 0 exactly for constant data (all four in C19_stats_of_grids_and_combined_lists); Locate_Closest_Location finds a member of the list exactly, finds the k-th element of a strictly increasing list at k, in particular a point of an ascending Linear_Space/Log_Space grid at its index, and rejects a descending grid (C19_closest_location_lookup); "
+              "the grid compositions are also run on the implementation (op gridstat: mean/median of the grid against the mid-point with a-priori rounding slack, the looked-up index holds the grid point). "
               "Not theorems: all of the above over R says nothing about rounding - the rounding behaviour of the floating-point grids and statistics, in particular that the three cancelling sums of Cochran's formula stay close to the closed form in doubles (covered by correspondence, bit-identical, and by S4 with a-priori rounding slack); which permutation std::nth_element leaves in the caller's vector (the model takes the sorted one; order-sensitive calls after a Median are compared on data whose partial sums are exact); that std::nth_element/upper_bound/is_sorted meet their specifications; that the C++ helpers read no ambient process state (errno, exception flags, stream state) and keep no statics is a fact about the code, tied by correspondence on sessions and by the fresh-process comparison, not a theorem. "
               "The Gallina model is the term that is extracted and run against the C++ helpers on every run, and every clause of the property is also evaluated on the implementation's output.")
 LEVEL_NOTE = ("Coq 8.16.1 kernel; theorems over Z/nat/lists are axiom-free, theorems over R use the standard library's real-number axioms (listed in the evidence); "
@@ -621,6 +628,22 @@ def session_cases(rng, pool, count, maxtok):
     return cs
 
 
+def gridstat_cases(rng, count):
+    cs = []
+    for _ in range(count):
+        kind = rng.choice(["generic", "generic", "integer", "ulps", "sign-change"])
+        n = rng.choice([2, 3, 4, 5, rng.randint(2, 40), rng.randint(2, 200)])
+        e = rng.randint(-300, 300)
+        if kind == "integer": a = float(rng.randint(-50, 50)); b = a + rng.randint(1, 60)
+        elif kind == "ulps": a = math.ldexp(rng.uniform(1, 2) * rng.choice([-1, 1]), e); b = ulp_step(a, rng.randint(1, 3 * n))
+        elif kind == "sign-change": a = -math.ldexp(rng.uniform(1, 2), e); b = math.ldexp(rng.uniform(1, 2), e + rng.randint(-3, 3))
+        else: a = math.ldexp(rng.uniform(-2, 2), e); b = a + abs(math.ldexp(rng.uniform(0.01, 2), e + rng.randint(-8, 8)))
+        if not a < b: continue
+        k = rng.choice([0, n - 1, rng.randrange(n)])
+        cs.append(Case(f"gridstat {hx(a)} {hx(b)} {n} {k}", ("gridstat", "gridstat-" + kind)))
+    return cs
+
+
 def generate(rng, tier):
     cs = []
     big = tier != "quick"
@@ -755,6 +778,9 @@ def generate(rng, tier):
     cs += history_cases(rng, 3000 if big else 300)
     # sessions: the requests above again, several per process, with the ambient state other code leaves behind
     cs += session_cases(rng, list(cs), 8000 if big else 500, 400 if big else 90)
+    # the helpers composed (after everything else, so that the streams above are unchanged): statistics of an ascending grid, a grid point
+    # looked up in its own grid; end points of moderate magnitude (the overflow regions of K-C19-1/2 are not entered), steps down to a few ulps
+    cs += gridstat_cases(rng, 3000 if big else 250)
     return cs
 
 
@@ -775,6 +801,7 @@ def nontrivial(c, io):
     if op == "transpose": return int(t[1]) > 1 and int(t[2]) > 1
     if op in ("mean", "variance", "stddev", "median", "wavg", "median2", "wavg1", "laws", "wlaws", "wshift"): return int(t[1]) >= 3
     if op == "history": return int(t[1]) >= 3 and int(t[2 + int(t[1])]) >= 2
+    if op == "gridstat": return int(t[3]) >= 3
     if op == "range1": return abs(int(t[1])) >= 2
     if op == "range2": return abs(int(t[2]) - int(t[1])) >= 2
     return len(t) > 3
@@ -1023,6 +1050,20 @@ def predicates(c, io):
             if list(map(_key, fin)) != list(map(_key, d)): out.append(("history:data-unchanged", "a call taking the vector by const reference changed it"))
         elif sorted(map(_key, fin)) != sorted(map(_key, d)):
             out.append(("history:permutation", f"after the history the caller's vector is no longer a permutation of the data: {sorted(fin)[:6]} against {sorted(d)[:6]}"))
+    elif op == "gridstat":
+        # theorems C19_stats_of_grids_and_combined_lists / C19_closest_location_lookup on the implementation: mean and median of an ascending grid are the
+        # mid-point within the a-priori rounding of the grid points (7 u M each, u = 2^-53, M = max(|a|,|b|)) and of the accumulation (n u M);
+        # the index found for grid[k] is in range and holds grid[k] itself
+        a, b, n, k = float.fromhex(t[1]), float.fromhex(t[2]), int(t[3]), int(t[4])
+        if io.startswith("EXIT"): return [("gridstat:exit", "a statistic or the look-up of a grid point of an ascending Linear_Space grid terminated the process")]
+        if len(v) != 5: return [("gridstat:shape", f"expected 5 values, got {io[:60]}")]
+        M = Fraction(max(abs(a), abs(b))); mid = (Fraction(a) + Fraction(b)) / 2; u = Fraction(1, 2 ** 53)
+        for nm, got, slack in (("mean", v[0], (n + 16) * u * M), ("median", v[1], 16 * u * M)):
+            if not finite(got) or abs(Fraction(got) - mid) > slack + TINY:
+                out.append((f"gridstat:{nm}-midpoint", f"{nm} of Linear_Space({a!r},{b!r},{n}) is {got!r}, mid-point {float(mid)!r} (slack {float(slack)!r})"))
+        if not (isinstance(v[2], int) and 0 <= v[2] < max(n, 1)): out.append(("gridstat:lookup-range", f"index {v[2]} for grid point {k} of {n}"))
+        elif not v[3] == v[4]:
+            out.append(("gridstat:lookup-member", f"grid point {k} = {v[3]!r} of Linear_Space({a!r},{b!r},{n}) looked up in the grid: index {v[2]} holding {v[4]!r}"))
     elif op in ("range1", "range2"):
         a, b = (0, int(t[1])) if op == "range1" else (int(t[1]), int(t[2]))
         exp = list(range(a, b, 1 if a < b else -1))
